@@ -29,7 +29,7 @@ def parse_stacks(blk):
         if not s or s.startswith("/") or s.startswith("Goroutine"):
             continue
         if line.startswith("  ") and not line.startswith("      "):
-            fn = re.sub(r"\(.*$", "", s)
+            fn = re.sub(r"\([^()]*\)$", "", s)  # drop the trailing argument list only: "pkg.(*T).M()" -> "pkg.(*T).M"
             cur.append(fn)
     return stacks
 
